@@ -30,7 +30,8 @@ EXPECTED_PROBES = ['tls', 'plain', 'burst_over_64k', 'many_frames_one_read',
                    'ping_in_burst', 'message_1mib', 'tls_readahead',
                    'burst_ends_with_empty_frame', 'ctl_inside_unfinished_message',
                    'threaded', 'pong_before_next_wait',
-                   'burst_exact_multiple_of_buffer']
+                   'burst_exact_multiple_of_buffer',
+                   'pong_write_failed_mid_read']
 ASSUMPTIONS = ['the "real loopback TCP and TLS runs" clause of the property '
                'is runtime observation of uncontrolled executions and is not '
                'part of this verdict (DESIGN.md section 10)']
@@ -43,7 +44,8 @@ def plan(tier):
     return [('seeded', 1200 if tier == 'quick' else 40000),
             ('huge', 40 if tier == 'quick' else 1500),
             ('threaded_sweep', len(TBASES) * TSLOT),
-            ('threaded_random', 400 if tier == 'quick' else 30000)]
+            ('threaded_random', 400 if tier == 'quick' else 30000),
+            ('pong_fault', 400 if tier == 'quick' else 15000)]
 
 
 # ThreadSim family: a sender thread is in the middle of a (split) socket write
@@ -97,6 +99,13 @@ def _threaded_case(family, i, rng, tier):
 def make_case(family, i, rng, tier):
     if family.startswith('threaded'):
         return _threaded_case(family, i, rng, tier)
+    if family == 'pong_fault':
+        # the write of an automatic Pong fails: the frames behind that Ping
+        # that had already arrived are still delivered (scenario and oracle
+        # of C01's pong_fault family)
+        from . import C01
+        c = C01.make_case('pong_fault', i, rng, tier)
+        return {'pong_fault': c}
     tls = rng.random() < 0.5
     bursts = []
     for _ in range(rng.choice([1, 2, 3])):
@@ -235,7 +244,10 @@ def build(case):
             assert (len(enc.stream) - start) % 65536 == 0, len(enc.stream)
         burst_bounds.append((start, len(enc.stream)))
     # server steps: reply, then each burst's chunks at one instant
-    reply = S.reply_tmpl()
+    # unrelated (but legal) headers in the 101, e.g. a Content-Length of 0
+    reply = S.reply_tmpl([[], [], [b'Content-Length: 0'],
+                          [b'content-length:0', b'Server: x']][
+        case['bursts'][0]['seed'] % 4] if case['bursts'] else [])
     steps = [{'op': 'await_request'}]
     data = bytes(enc.stream)
 
@@ -363,6 +375,13 @@ def _execute_threaded(case):
 def execute(case):
     if case.get('threaded'):
         return _execute_threaded(case)
+    if 'pong_fault' in case:
+        from . import C01
+        r = C01.execute(case['pong_fault'])
+        r.violations = [('C18/pong_fault/' + k.split('/', 1)[1], m)
+                        for k, m in r.violations]
+        r.stats['probe:pong_write_failed_mid_read'] += 1
+        return r
     res = Result()
     sc, enc, rlen, bounds = build(case)
     tr = netsim.run(sc)
@@ -381,6 +400,13 @@ def execute(case):
     for k, m in oracle.trace_sanity(tr):
         if k in ('hang', 'escaped'):
             res.bad('C18/%s/%s' % (tag, k), m)
+    # Ready in the loop cycle in which the end of the reply became available
+    ready = [e for e in tr.events if e.name == 'ready']
+    t_reply = next((t for (_, t, cum) in st.avail if cum >= rlen), None)
+    if ready and t_reply is not None and ready[0].t != t_reply:
+        res.bad('C18/%s/ready_late' % tag,
+                'the upgrade reply was complete at t=%d us, Ready was yielded '
+                'at t=%d us' % (t_reply, ready[0].t))
     msgs = oracle.msg_events(tr)
     got = [oracle.payload_of(e.snap) for e in msgs]
     if got != enc.expected:
